@@ -194,6 +194,8 @@ from . import wiring
 
 from . import vocab
 
+from . import inventory
+
 OBLIGATIONS = [
     ('C13.O1', 'builder boundary', 'start_synctest_session builds a session exactly under check_dist < max_prediction & !sparse_saving, InvalidRequest otherwise.', o1),
     ('C13.O2', 'compare, then roll back, every call', 'under exactly check_distance > 0 & current > check_distance the comparison over [current - cd, current] precedes '
@@ -209,4 +211,5 @@ OBLIGATIONS = [
     ('C13.M', 'must-call floor', 'the calls listed for this property in tables/must_call.json are made on every path from the entry of their function to a normal return (interprocedural must-call): a new early return, fast path or extra condition in front of one of them is reported; see rules/mustcall.py', mustcall.rule_for('C13')),
     ('C13.W', 'configuration wiring', 'the SyncTestSession gets the configuration the builder holds: no crossed wires, collections forwarded whole, setters order-independent, and no constructor combines two different configuration values into one (input delay, check distance and prediction window reach the sync layer as configured); see rules/wiring.py', wiring.rule),
     ('C13.V', 'no unreviewed condition in the pinned helpers', 'for each helper whose body this property\'s rules pin (tables/condition_terms.json), the terms its path conditions are built from (fields, parameters, call results -- no constants, operators or local names) are a subset of the reviewed vocabulary: one more `if` in front of a pinned result (a lock that may time out, "only while an endpoint is running") is reported; see rules/vocab.py', vocab.rule_for('C13')),
+    ('C13.S', 'state inventory', 'every field of the structs this property\'s rules read (tables/state.json) is known, and is written only by its reviewed writers (or helpers only they call): a new field is new state across calls -- a cache, a flag, a stored deadline -- that nothing has shown to stay in step; a new writer is a second place that resets, re-arms or moves something; see rules/inventory.py', inventory.state_rule_for('C13')),
 ]
